@@ -124,4 +124,19 @@ def acyclic (g : G) : Bool :=
 
 def graphInv (g : G) : Bool := bidirectional g && liveOnly g && acyclic g
 
+/-! ## executable hypotheses of `attrUpdatesChain_correct` (Proofs/Chain.lean), evaluated on every exported graph -/
+
+/-- ids are unique (the id of node `x` is `x`) and edges stay inside the graph -/
+def wfOk (g : G) : Bool :=
+  (List.range g.size).all (fun x => (g.node x).sid == x && (g.node x).chi.all (· < g.size) && (g.node x).anc.all (· < g.size))
+
+/-- every recorded ancestor lists the node among its children -/
+def ancInChiOk (g : G) : Bool :=
+  (List.range g.size).all (fun x => (g.node x).anc.all (fun a => (g.node a).chi.contains x))
+
+/-- `rk` is a rank function bounded by `bound`: children rank strictly higher (an acyclicity witness,
+computed outside and checked here) -/
+def rankOk (g : G) (rk : Array Nat) (bound : Nat) : Bool :=
+  (List.range g.size).all (fun x => rk[x]! ≤ bound && (g.node x).chi.all (fun c => rk[x]! < rk[c]!))
+
 end Efp.Graph
